@@ -581,6 +581,565 @@ fn cycle_specs(reps: usize) -> Vec<Spec> {
 	v
 }
 
+
+// ---------------------------------------------------------------------------------------------------------------
+// TCP pass: the default `Server` (its accept loop, hyper on real loopback sockets, real clock). Adds what the in-memory
+// assembly cannot produce: peer resets (RST), an upgrade whose 101 cannot be written (`hyper::upgrade::on` fails),
+// keep-alive connections that are idle between requests, requests cut inside the header / inside the body.
+
+#[derive(Debug, Clone, PartialEq, Eq, Hash)]
+enum TOp {
+	/// one POST on a fresh connection
+	Quick,
+	/// a POST on a keep-alive connection that then stays open, idle (holds no slot: a request counts while processed)
+	KeepAliveNew,
+	/// another POST on an idle keep-alive connection
+	KeepAliveAgain(usize),
+	KeepAliveDrop(usize),
+	Hold,
+	Release(usize),
+	/// the peer of a held call resets its socket
+	HoldRst(usize),
+	WsOpen,
+	WsCall(usize),
+	WsCloseFrame(usize),
+	WsFin(usize),
+	WsRst(usize),
+	WsRstMidCall(usize),
+	/// upgrade request written, socket reset a few microseconds later (index into `RST_DELAYS_US`): the server has
+	/// taken the request but cannot write its 101, `hyper::upgrade::on` fails
+	UpgradeThenRst(usize),
+	/// upgrade request written, then the socket is reset after the 101 has arrived but before any frame
+	UpgradeReadThenRst,
+	/// a request cut inside its header
+	CutInHeader,
+	/// a request cut inside its body (Content-Length larger than what is sent), then reset
+	CutInBody,
+}
+
+impl TOp {
+	fn kind(&self) -> &'static str {
+		match self {
+			TOp::Quick => "tcp-http-call",
+			TOp::KeepAliveNew => "tcp-keepalive-call",
+			TOp::KeepAliveAgain(_) => "tcp-keepalive-reuse",
+			TOp::KeepAliveDrop(_) => "tcp-keepalive-drop",
+			TOp::Hold => "tcp-http-held-call",
+			TOp::Release(_) => "tcp-http-release",
+			TOp::HoldRst(_) => "tcp-http-held-reset",
+			TOp::WsOpen => "tcp-ws-open",
+			TOp::WsCall(_) => "tcp-ws-call",
+			TOp::WsCloseFrame(_) => "tcp-ws-close-frame",
+			TOp::WsFin(_) => "tcp-ws-fin",
+			TOp::WsRst(_) => "tcp-ws-reset",
+			TOp::WsRstMidCall(_) => "tcp-ws-reset-mid-call",
+			TOp::UpgradeThenRst(_) => "tcp-upgrade-then-reset",
+			TOp::UpgradeReadThenRst => "tcp-upgrade-101-then-reset",
+			TOp::CutInHeader => "tcp-cut-in-header",
+			TOp::CutInBody => "tcp-cut-in-body",
+		}
+	}
+}
+
+#[derive(Debug, Clone)]
+struct TSpec {
+	seed: u64,
+	max: u32,
+	ops: Vec<TOp>,
+}
+
+fn gen_tspec(seed: u64) -> TSpec {
+	let mut r = Rng::new(seed);
+	let n = 4 + r.usize(12);
+	let mut ops = Vec::new();
+	for _ in 0..n {
+		ops.push(match r.below(24) {
+			0 | 1 => TOp::Quick,
+			2 => TOp::KeepAliveNew,
+			3 => TOp::KeepAliveAgain(r.usize(3)),
+			4 => TOp::KeepAliveDrop(r.usize(3)),
+			5..=7 => TOp::Hold,
+			8 => TOp::Release(r.usize(3)),
+			9 => TOp::HoldRst(r.usize(3)),
+			10..=13 => TOp::WsOpen,
+			14 => TOp::WsCall(r.usize(3)),
+			15 => TOp::WsCloseFrame(r.usize(3)),
+			16 => TOp::WsFin(r.usize(3)),
+			17 => TOp::WsRst(r.usize(3)),
+			18 => TOp::WsRstMidCall(r.usize(3)),
+			19 | 20 => TOp::UpgradeThenRst(r.usize(RST_DELAYS_US.len())),
+			21 => TOp::UpgradeReadThenRst,
+			22 => TOp::CutInHeader,
+			_ => TOp::CutInBody,
+		});
+	}
+	TSpec { seed, max: 1 + r.below(3) as u32, ops }
+}
+
+/// The same exit path many times over TCP, then fill the limit and try once more.
+fn tcp_cycle_specs(reps: usize) -> Vec<TSpec> {
+	let paths: Vec<Vec<TOp>> = vec![
+		vec![TOp::UpgradeThenRst(0), TOp::UpgradeThenRst(1), TOp::UpgradeThenRst(2)],
+		vec![TOp::UpgradeThenRst(3), TOp::UpgradeThenRst(4), TOp::UpgradeThenRst(5)],
+		vec![TOp::UpgradeReadThenRst],
+		vec![TOp::WsOpen, TOp::WsRst(0)],
+		vec![TOp::WsOpen, TOp::WsRstMidCall(0)],
+		vec![TOp::WsOpen, TOp::WsFin(0)],
+		vec![TOp::Hold, TOp::HoldRst(0)],
+		vec![TOp::CutInBody],
+		vec![TOp::CutInHeader, TOp::KeepAliveNew, TOp::KeepAliveDrop(0)],
+	];
+	let mut v = Vec::new();
+	for p in paths {
+		for max in [1u32, 2] {
+			let mut ops: Vec<TOp> = std::iter::repeat(p.clone()).take(reps).flatten().collect();
+			for _ in 0..max {
+				ops.push(TOp::WsOpen);
+			}
+			ops.push(TOp::Quick);
+			v.push(TSpec { seed: 0, max, ops });
+		}
+	}
+	v
+}
+
+struct TWs {
+	ws: RawWs,
+	kill: jrv::tcp::WsKill,
+	held_tags: Vec<String>,
+}
+
+struct THeld {
+	tag: String,
+	sock: tokio::net::TcpStream,
+}
+
+const RST_DELAYS_US: [u64; 6] = [0, 3, 6, 10, 18, 35];
+const UPGRADE_REQ: &str = "GET / HTTP/1.1\r\nHost: localhost\r\nUpgrade: websocket\r\nConnection: Upgrade\r\nSec-WebSocket-Key: dGhlIHNhbXBsZSBub25jZQ==\r\nSec-WebSocket-Version: 13\r\n\r\n";
+
+/// Occupancy as the guard shows it; polled until it equals the model. Occupancy *below* the model is judged at once
+/// (the model counts only connections the server has provably admitted and that the harness has not ended); occupancy
+/// *above* the model is judged only if it persists for `SETTLE_LIMIT` of real time (a slot that is merely slow to
+/// return is not a violation; a wall-clock limit this generous is exceeded only by a slot that never returns).
+const SETTLE_LIMIT: Duration = Duration::from_secs(30);
+
+async fn tcp_settle(g: &ConnectionGuard, model: usize) -> Result<u64, (usize, bool)> {
+	let start = std::time::Instant::now();
+	let mut polls = 0u64;
+	loop {
+		polls += 1;
+		let occ = g.max_connections().saturating_sub(g.available_connections());
+		if occ == model {
+			return Ok(polls);
+		}
+		if occ < model {
+			return Err((occ, true));
+		}
+		if start.elapsed() > SETTLE_LIMIT {
+			return Err((occ, false));
+		}
+		tokio::time::sleep(Duration::from_micros(if polls < 50 { 200 } else { 5000 })).await;
+	}
+}
+
+async fn wait_started(sh: &Shared, tag: &str, limit: Duration) -> bool {
+	let start = std::time::Instant::now();
+	loop {
+		if sh.started.lock().unwrap().iter().any(|t| t == tag) {
+			return true;
+		}
+		if start.elapsed() > limit {
+			return false;
+		}
+		tokio::time::sleep(Duration::from_micros(300)).await;
+	}
+}
+
+async fn run_tspec(spec: &TSpec) -> Result<Out, String> {
+	use tokio::io::AsyncWriteExt;
+	let mut out = Out::default();
+	let sh = Arc::new(Shared::default());
+	let cfg = ServerConfig::builder().max_connections(spec.max).build();
+	let server = jsonrpsee_server::Server::builder().set_config(cfg).build("127.0.0.1:0").await.map_err(|e| e.to_string())?;
+	let addr = server.local_addr().map_err(|e| e.to_string())?;
+	let handle = server.start(module(sh.clone()));
+	let lim = Duration::from_secs(20);
+	let probe_body = json!({"jsonrpc": "2.0", "id": 1, "method": "probe"}).to_string();
+	// warm-up: the first handler call publishes the guard
+	let rep = jrv::tcp::post_once(addr, probe_body.as_bytes(), lim).await?;
+	if rep.status != 200 {
+		return Err(format!("warm-up probe got status {}", rep.status));
+	}
+	let guard = sh.guard.lock().unwrap().clone().ok_or("no guard in the request extensions")?;
+	let mut served = 0usize;
+	let mut tag_n = 0usize;
+	let mut kept: Vec<tokio::net::TcpStream> = Vec::new();
+	let mut held: Vec<THeld> = Vec::new();
+	let mut wss: Vec<TWs> = Vec::new();
+	macro_rules! bad {
+		($sig:expr, $($arg:tt)*) => { out.violations.push(($sig.to_string(), format!($($arg)*))) };
+	}
+	macro_rules! settle_or_bad {
+		($oi:expr, $op:expr) => {
+			match tcp_settle(&guard, served).await {
+				Ok(_) => out.occupancy_checks += 1,
+				Err((occ, true)) => bad!(format!("occupancy-wrong/slot-returned-early/after-{}", $op.kind()), "after step {} ({:?}) the guard shows {occ} of {} in use, the model {served}", $oi, $op, spec.max),
+				Err((occ, false)) => bad!(format!("occupancy-wrong/slot-not-returned/after-{}", $op.kind()), "after step {} ({:?}) the guard still shows {occ} of {} in use {SETTLE_LIMIT:?} later, the model {served}", $oi, $op, spec.max),
+			}
+		};
+	}
+	settle_or_bad!(0usize, TOp::Quick);
+
+	for (oi, op) in spec.ops.iter().enumerate() {
+		if !out.violations.is_empty() {
+			break;
+		}
+		let full = served >= spec.max as usize;
+		let before_started = sh.started.lock().unwrap().len();
+		match op {
+			TOp::Quick | TOp::KeepAliveNew => {
+				out.attempts += 1;
+				let keep = *op == TOp::KeepAliveNew;
+				let mut s = jrv::tcp::connect(addr).await?;
+				jrv::tcp::send_post(&mut s, probe_body.as_bytes(), keep).await?;
+				let rep = jrv::tcp::read_response(&mut s, lim).await?;
+				out.history.push(format!("{oi}: {} with {served}/{} served -> {}", op.kind(), spec.max, rep.status));
+				if full {
+					out.refused += 1;
+					if rep.status != 429 {
+						bad!(format!("not-refused-429/{}", op.kind()), "{served} of {} slots in use but the attempt got status {} body {}", spec.max, rep.status, rep.text());
+					}
+				} else {
+					out.admitted += 1;
+					if rep.status != 200 {
+						bad!(format!("refused-with-free-slot/{}", op.kind()), "{served} of {} slots in use but the attempt got status {}", spec.max, rep.status);
+					} else if rep.json().map(|v| v["result"].clone()) != Some(json!(served as u64 + 1)) {
+						bad!("occupancy-wrong/during-http-call", "probe reported {:?}, model says {} (incl. the probe itself)", rep.json(), served + 1);
+					}
+				}
+				if keep && rep.status == 200 {
+					kept.push(s);
+				}
+			}
+			TOp::KeepAliveAgain(k) => {
+				if kept.is_empty() {
+					continue;
+				}
+				out.attempts += 1;
+				let i = k % kept.len();
+				let r1 = jrv::tcp::send_post(&mut kept[i], probe_body.as_bytes(), true).await;
+				let rep = match r1 {
+					Ok(()) => jrv::tcp::read_response(&mut kept[i], lim).await,
+					Err(e) => Err(e),
+				};
+				match rep {
+					Ok(rep) => {
+						out.history.push(format!("{oi}: request on an idle keep-alive connection with {served}/{} served -> {}", spec.max, rep.status));
+						if full {
+							out.refused += 1;
+							if rep.status != 429 {
+								bad!("not-refused-429/tcp-keepalive-reuse", "{served} of {} slots in use but a request on an idle keep-alive connection got status {}", spec.max, rep.status);
+							}
+						} else {
+							out.admitted += 1;
+							if rep.status != 200 {
+								bad!("refused-with-free-slot/tcp-keepalive-reuse", "{served} of {} slots in use, status {}", spec.max, rep.status);
+							}
+						}
+						if rep.status != 200 {
+							kept.remove(i);
+						}
+					}
+					Err(e) => {
+						// the server may close idle connections; not a property matter
+						out.history.push(format!("{oi}: idle keep-alive connection was gone ({e})"));
+						kept.remove(i);
+					}
+				}
+			}
+			TOp::KeepAliveDrop(k) => {
+				if kept.is_empty() {
+					continue;
+				}
+				let s = kept.remove(k % kept.len());
+				if k % 2 == 0 { jrv::tcp::reset(s) } else { drop(s) }
+				out.history.push(format!("{oi}: idle keep-alive connection dropped"));
+			}
+			TOp::Hold => {
+				out.attempts += 1;
+				tag_n += 1;
+				let tag = format!("t{}-{tag_n}", spec.seed);
+				let body = json!({"jsonrpc": "2.0", "id": 1, "method": "hold", "params": [tag]}).to_string();
+				let mut s = jrv::tcp::connect(addr).await?;
+				jrv::tcp::send_post(&mut s, body.as_bytes(), false).await?;
+				if full {
+					out.refused += 1;
+					match jrv::tcp::read_response(&mut s, lim).await {
+						Ok(rep) if rep.status == 429 => {}
+						other => bad!("not-refused-429/tcp-http-held-call", "{served} of {} slots in use: {:?}", spec.max, other.map(|r| r.status)),
+					}
+					if sh.started.lock().unwrap().len() != before_started {
+						bad!("handler-ran-for-refused/tcp-http-held-call", "a refused attempt reached the handler");
+					}
+				} else {
+					out.admitted += 1;
+					if !wait_started(&sh, &tag, lim).await {
+						bad!("refused-with-free-slot/tcp-http-held-call", "{served} of {} slots in use but the held call did not start within {lim:?}", spec.max);
+					} else {
+						served += 1;
+						held.push(THeld { tag: tag.clone(), sock: s });
+					}
+				}
+				out.history.push(format!("{oi}: held call {tag} (full={full}) -> served {served}"));
+			}
+			TOp::Release(k) | TOp::HoldRst(k) => {
+				if held.is_empty() {
+					continue;
+				}
+				let mut h = held.remove(k % held.len());
+				if matches!(op, TOp::Release(_)) {
+					if let Some(g) = sh.gates.lock().unwrap().get(&h.tag).cloned() {
+						g.notify_one();
+					}
+					match jrv::tcp::read_response(&mut h.sock, lim).await {
+						Ok(rep) if rep.status == 200 => {}
+						other => bad!("held-call-not-answered/tcp-http-release", "{:?}", other.map(|r| r.status)),
+					}
+				} else {
+					jrv::tcp::reset(h.sock);
+				}
+				served -= 1;
+				out.endings += 1;
+				out.history.push(format!("{oi}: {} {} -> served {served}", op.kind(), h.tag));
+			}
+			TOp::WsOpen => {
+				out.attempts += 1;
+				match jrv::tcp::ws_connect(addr).await {
+					Ok((ws, kill)) => {
+						out.admitted += 1;
+						if full {
+							bad!("cap-exceeded/tcp-ws-open", "{served} of {} slots in use but a WebSocket session was admitted", spec.max);
+						}
+						served += 1;
+						wss.push(TWs { ws, kill, held_tags: vec![] });
+					}
+					Err(WsConnectError::Rejected(code)) => {
+						out.refused += 1;
+						if !full {
+							bad!("refused-with-free-slot/tcp-ws-open", "{served} of {} slots in use but the upgrade was refused with {code}", spec.max);
+						} else if code != 429 {
+							bad!("not-refused-429/tcp-ws-open", "upgrade refused with status {code}");
+						}
+					}
+					Err(e) => return Err(format!("ws handshake: {e:?}")),
+				}
+				out.history.push(format!("{oi}: ws open (full={full}) -> served {served}"));
+			}
+			TOp::WsCall(k) | TOp::WsRstMidCall(k) => {
+				if wss.is_empty() {
+					continue;
+				}
+				let i = k % wss.len();
+				tag_n += 1;
+				let tag = format!("t{}-{tag_n}", spec.seed);
+				let msg = json!({"jsonrpc": "2.0", "id": tag_n, "method": "hold", "params": [tag]}).to_string();
+				let _ = wss[i].ws.send_text(&msg).await;
+				if !wait_started(&sh, &tag, lim).await {
+					bad!("ws-call-not-started/tcp-ws-call", "a call on an admitted WebSocket session did not reach its handler within {lim:?}");
+				}
+				wss[i].held_tags.push(tag.clone());
+				if matches!(op, TOp::WsRstMidCall(_)) {
+					let mut w = wss.remove(i);
+					w.kill.kill(jrv::tcp::Kill::Rst);
+					// the handler keeps running for a while after the reset; then it is let go
+					tokio::time::sleep(Duration::from_millis(2)).await;
+					for t in &w.held_tags {
+						if let Some(g) = sh.gates.lock().unwrap().get(t).cloned() {
+							g.notify_one();
+						}
+					}
+					served -= 1;
+					out.endings += 1;
+				}
+				out.history.push(format!("{oi}: {} {tag} -> served {served}", op.kind()));
+			}
+			TOp::WsCloseFrame(k) | TOp::WsFin(k) | TOp::WsRst(k) => {
+				if wss.is_empty() {
+					continue;
+				}
+				let mut w = wss.remove(k % wss.len());
+				for t in &w.held_tags {
+					if let Some(g) = sh.gates.lock().unwrap().get(t).cloned() {
+						g.notify_one();
+					}
+				}
+				match op {
+					TOp::WsCloseFrame(_) => {
+						w.ws.close().await;
+						tokio::time::sleep(Duration::from_millis(1)).await;
+						w.kill.kill(jrv::tcp::Kill::Fin);
+					}
+					TOp::WsFin(_) => w.kill.kill(jrv::tcp::Kill::Fin),
+					_ => w.kill.kill(jrv::tcp::Kill::Rst),
+				}
+				served -= 1;
+				out.endings += 1;
+				out.history.push(format!("{oi}: {} -> served {served}", op.kind()));
+			}
+			TOp::UpgradeReadThenRst => {
+				out.attempts += 1;
+				let mut s = jrv::tcp::connect(addr).await?;
+				let _ = s.write_all(UPGRADE_REQ.as_bytes()).await;
+				let rep = jrv::tcp::read_response(&mut s, lim).await;
+				let st = rep.as_ref().map(|r| r.status).unwrap_or(0);
+				if full && st != 429 {
+					bad!("not-refused-429/tcp-upgrade-101-then-reset", "{served} of {} slots in use but the upgrade got status {st}", spec.max);
+				} else if !full && st != 101 {
+					bad!("refused-with-free-slot/tcp-upgrade-101-then-reset", "{served} of {} slots in use but the upgrade got status {st}", spec.max);
+				}
+				jrv::tcp::reset(s);
+				if !full {
+					out.endings += 1;
+				}
+				out.history.push(format!("{oi}: {} (full={full})", op.kind()));
+			}
+			TOp::UpgradeThenRst(d0) => {
+				// the window between "request taken" and "101 written" is a few microseconds wide and moves with the load of the
+				// machine: the attempt is repeated with other delays until the server's own trace shows that the branch was taken
+				// (every repetition is an attempt in its own right and is followed by the occupancy comparison)
+				let mut tries = 0;
+				for t in 0..8usize {
+					tries += 1;
+					out.attempts += 1;
+					let before = jrv::tcp::branches().upgrade_failed;
+					let mut s = jrv::tcp::connect(addr).await?;
+					let _ = s.write_all(UPGRADE_REQ.as_bytes()).await;
+					let t0 = std::time::Instant::now();
+					while t0.elapsed() < Duration::from_micros(RST_DELAYS_US[(d0 + t) % RST_DELAYS_US.len()]) {
+						std::hint::spin_loop();
+					}
+					jrv::tcp::reset(s);
+					if !full {
+						out.endings += 1;
+					}
+					settle_or_bad!(oi, op);
+					if !out.violations.is_empty() || full || jrv::tcp::branches().upgrade_failed > before {
+						break;
+					}
+				}
+				out.history.push(format!("{oi}: {} x{tries} (full={full})", op.kind()));
+			}
+			TOp::CutInHeader => {
+				let mut s = jrv::tcp::connect(addr).await?;
+				let _ = s.write_all(b"POST / HTTP/1.1\r\nHost: localhost\r\nContent-Type: applica").await;
+				tokio::time::sleep(Duration::from_millis(1)).await;
+				jrv::tcp::reset(s);
+				out.history.push(format!("{oi}: request cut inside its header"));
+			}
+			TOp::CutInBody => {
+				out.attempts += 1;
+				let mut s = jrv::tcp::connect(addr).await?;
+				let _ = s.write_all(jrv::tcp::post_head(200, false).as_bytes()).await;
+				let _ = s.write_all(b"{\"jsonrpc\":\"2.0\",\"id\":1,").await;
+				if full {
+					out.refused += 1;
+					match jrv::tcp::read_response(&mut s, lim).await {
+						Ok(rep) if rep.status == 429 => {}
+						other => bad!("not-refused-429/tcp-cut-in-body", "{:?}", other.map(|r| r.status)),
+					}
+				} else {
+					out.admitted += 1;
+					tokio::time::sleep(Duration::from_millis(2)).await;
+					out.endings += 1;
+				}
+				jrv::tcp::reset(s);
+				out.history.push(format!("{oi}: request cut inside its body (full={full})"));
+			}
+		}
+		if sh.started.lock().unwrap().len() > before_started && full && !matches!(op, TOp::WsCall(_) | TOp::WsRstMidCall(_)) {
+			bad!(format!("handler-ran-for-refused/{}", op.kind()), "a handler started although {served} of {} slots were in use", spec.max);
+		}
+		settle_or_bad!(oi, op);
+		out.max_served = out.max_served.max(served);
+		out.states.push((served, spec.max));
+	}
+	for g in sh.gates.lock().unwrap().values() {
+		g.notify_one();
+	}
+	for mut w in wss {
+		w.kill.kill(jrv::tcp::Kill::Rst);
+	}
+	for h in held {
+		jrv::tcp::reset(h.sock);
+	}
+	let _ = handle.stop();
+	let _ = tokio::time::timeout(Duration::from_secs(20), handle.stopped()).await;
+	Ok(out)
+}
+
+/// Runs the TCP specs on one multi-threaded runtime, `par` at a time. Returns evidence, violations, harness errors.
+fn tcp_pass(specs: Vec<(TSpec, &'static str)>, par: usize, verbose: bool) -> (Evidence, Vec<Violation>, Vec<String>) {
+	let results: Vec<(TSpec, &'static str, Result<Out, String>)> = block_on_stress_io(8, async move {
+		let sem = Arc::new(tokio::sync::Semaphore::new(par));
+		let mut hs = Vec::new();
+		for (spec, class) in specs {
+			let sem = sem.clone();
+			hs.push(tokio::spawn(async move {
+				let _p = sem.acquire_owned().await;
+				let r = run_tspec(&spec).await;
+				(spec, class, r)
+			}));
+		}
+		let mut v = Vec::new();
+		for h in hs {
+			if let Ok(x) = h.await {
+				v.push(x);
+			}
+		}
+		v
+	});
+	let mut ev = Evidence::new("");
+	let mut violations = Vec::new();
+	let mut errs = Vec::new();
+	for (spec, class, r) in results {
+		match r {
+			Err(e) => errs.push(e),
+			Ok(o) => {
+				if verbose {
+					for h in &o.history {
+						println!("  {h}");
+					}
+					println!("violations: {:?}", o.violations);
+				}
+				ev.eval();
+				ev.count("tcp_cases", 1);
+				ev.count("tcp_attempts", o.attempts as u64);
+				ev.count("tcp_attempts_refused_429", o.refused as u64);
+				ev.count("tcp_attempts_admitted", o.admitted as u64);
+				ev.count("tcp_occupancy_checks", o.occupancy_checks as u64);
+				ev.count("tcp_connection_endings", o.endings as u64);
+				if o.admitted > 0 && o.occupancy_checks > 0 {
+					ev.nontrivial(&("tcp", spec.max, &spec.ops));
+				}
+				for s in &o.states {
+					ev.class("tcp_occupancy_states", s);
+				}
+				for op in &spec.ops {
+					ev.class("tcp_operation_kinds", &op.kind());
+				}
+				if o.violations.is_empty() {
+					ev.sample_class("tcp", json!({"max_connections": spec.max, "ops": spec.ops.iter().take(24).map(|o| format!("{o:?}")).collect::<Vec<_>>(), "history": o.history.iter().take(12).collect::<Vec<_>>() }));
+				}
+				let w = json!({"seed": spec.seed, "class": class, "max_connections": spec.max, "ops": spec.ops.iter().take(80).map(|o| format!("{o:?}")).collect::<Vec<_>>(), "n_ops": spec.ops.len(), "history": o.history.iter().rev().take(40).rev().collect::<Vec<_>>() });
+				for (sig, d) in o.violations {
+					violations.push(Violation::new(sig, d, w.clone()));
+				}
+			}
+		}
+	}
+	(ev, violations, errs)
+}
+
 fn record(spec: &Spec, o: Out, class: &str, ev: &mut Evidence, violations: &mut Vec<Violation>) {
 	ev.eval();
 	ev.count("attempts", o.attempts as u64);
@@ -607,6 +1166,7 @@ fn record(spec: &Spec, o: Out, class: &str, ev: &mut Evidence, violations: &mut 
 fn main() {
 	let ctx = Ctx::from_env("C11", "fault_enumeration");
 	install_panic_capture(true);
+	jrv::tcp::install_branch_counter();
 	let _wd = watchdog("C11", Duration::from_secs(ctx.tier.pick(900, 7200)));
 	let mut ev = Evidence::new(
 		"cases = lifecycle sequences against the real per-connection tower service (shared ConnectionGuard) in memory, limits 0..3: \
@@ -616,19 +1176,41 @@ fn main() {
 		 for limits 1 and 2; 10 exit paths repeated 100x (quick) / 500x (thorough) followed by filling the limit. After every step and \
 		 100 virtual ms of quiescence, max - available (read from the ConnectionGuard in the request extensions) must equal the \
 		 model's number of served connections; attempts at a full limit must be answered 429 without reaching a handler. \
-		 Non-trivial = at least one admitted attempt and one occupancy comparison; distinct by (limit, operations).",
+		 Non-trivial = at least one admitted attempt and one occupancy comparison; distinct by (limit, operations). \
+		 TCP pass: the default Server (accept loop, hyper on loopback sockets, real clock), limits 1..3, 64 (quick) / 3000 (thorough) \
+		 seeded sequences of 4..15 steps plus 8 exit paths repeated 20x / 200x then filling the limit; additional operations: \
+		 keep-alive connection idle between requests, reuse of an idle keep-alive connection at a full limit, peer reset (RST) of a \
+		 held HTTP call / of a WebSocket session / mid-call, upgrade request followed at once by RST (hyper::upgrade::on fails; \
+		 counted through the server's tracing events), upgrade whose 101 is read and then RST, request cut inside header / body; \
+		 the guard's occupancy is polled until it equals the model: below the model is a violation at once, above it only if it persists 30 s.",
 	);
 	ev.assume("mode D: 100 virtual ms on a paused clock = the runtime ran out of work, so a slot that has not returned by then never will");
+	ev.assume("TCP pass: a slot that has not returned 30 s (real time, loopback) after its connection ended is taken as never returning");
 	ev.assume("HTTP requests are driven by direct calls on the tower service (the permit is taken per request, as over TCP); WebSocket sessions go through hyper over an in-memory duplex");
 	let mut violations = Vec::new();
 	let replay = ctx.replay.is_some();
 	let mut specs: Vec<(Spec, &'static str)> = Vec::new();
+	let mut tspecs: Vec<(TSpec, &'static str)> = Vec::new();
 	if let Some(path) = &ctx.replay {
 		let w: Value = serde_json::from_str(&std::fs::read_to_string(path).expect("replay")).expect("json");
 		let class = w["witness"]["class"].as_str().unwrap_or("seeded").to_string();
 		let n = w["witness"]["n_ops"].as_u64().unwrap_or(0) as usize;
 		let max = w["witness"]["max_connections"].as_u64().unwrap_or(1) as u32;
+		if class.starts_with("tcp") {
+			let all: Vec<TSpec> = match class.as_str() {
+				"tcp-seeded" => vec![gen_tspec(w["witness"]["seed"].as_u64().unwrap_or(0))],
+				_ => tcp_cycle_specs(20).into_iter().chain(tcp_cycle_specs(200)).collect(),
+			};
+			let first_ops = w["witness"]["ops"].clone();
+			for s in all {
+				if s.ops.len() == n && s.max == max && json!(s.ops.iter().take(80).map(|o| format!("{o:?}")).collect::<Vec<_>>()) == first_ops {
+					tspecs.push((s, "replay"));
+					break;
+				}
+			}
+		}
 		let all: Vec<Spec> = match class.as_str() {
+			c if c.starts_with("tcp") => vec![],
 			"seeded" => vec![gen_spec(w["witness"]["seed"].as_u64().unwrap_or(0))],
 			"exhaustive" => exhaustive_specs(4),
 			_ => cycle_specs(100).into_iter().chain(cycle_specs(500)).collect(),
@@ -640,8 +1222,14 @@ fn main() {
 				break;
 			}
 		}
-		println!("replaying {} case(s)", specs.len());
+		println!("replaying {} case(s)", specs.len() + tspecs.len());
 	} else {
+		for i in 0..ctx.tier.pick(64u64, 3_000) {
+			tspecs.push((gen_tspec(Rng::fork(ctx.seed ^ 0x7c9, i).next_u64()), "tcp-seeded"));
+		}
+		for s in tcp_cycle_specs(ctx.tier.pick(20, 200)) {
+			tspecs.push((s, "tcp-cycles"));
+		}
 		for i in 0..ctx.tier.pick(8_000u64, 400_000) {
 			specs.push((gen_spec(Rng::fork(ctx.seed, i).next_u64()), "seeded"));
 		}
@@ -671,6 +1259,28 @@ fn main() {
 		ev.merge(e);
 		violations.extend(v);
 	}
+	let mut inconclusive = None;
+	if !tspecs.is_empty() {
+		let n_t = tspecs.len();
+		let b0 = jrv::tcp::branches();
+		let (e, v, errs) = tcp_pass(tspecs, 8, replay);
+		ev.merge(e);
+		violations.extend(v);
+		let b = jrv::tcp::branches();
+		// "Could not upgrade connection" is logged for a refused handshake and for a failed hyper::upgrade::on; the TCP
+		// operations contain no refused handshake, so every such event of this phase is the latter
+		ev.count("mem_branch_could_not_upgrade_events", b0.upgrade_failed);
+		ev.count("tcp_branch_upgrade_on_failed_reached", b.upgrade_failed - b0.upgrade_failed);
+		ev.count("tcp_branch_serve_connection_failed_reached", b.serve_connection_failed - b0.serve_connection_failed);
+		ev.count("tcp_branch_connection_admitted", b.accepted - b0.accepted);
+		if !errs.is_empty() {
+			println!("tcp pass: {} of {n_t} case(s) could not be run: {}", errs.len(), errs[0]);
+			ev.count("tcp_cases_not_run", errs.len() as u64);
+			if errs.len() * 4 > n_t {
+				inconclusive = Some(format!("{} of {n_t} TCP cases could not be run (first: {})", errs.len(), errs[0]));
+			}
+		}
+	}
 	for p in take_panics() {
 		if p.in_library {
 			violations.push(Violation::new(
@@ -680,5 +1290,5 @@ fn main() {
 			));
 		}
 	}
-	finish(&ctx, ev, violations, None);
+	finish(&ctx, ev, violations, inconclusive);
 }
